@@ -250,6 +250,19 @@ pub async fn run_one(rep: &mut Report, sub_seed: u64, table: Arc<Vec<Vec<u8>>>) 
                 restarts += 1;
             }
         }
+        if rng.chance(1, 3) {
+            // a commit call of an already committed migration arrives (again) now: a duplicated or delayed
+            // coordinator call, or a lagging proxy that still reports the finished task
+            let old: Vec<_> = adapter1.committed.lock().clone();
+            if let Some(m) = rng.pick_opt(&old) {
+                use undermoon::coordinator::broker::MetaManipulationBroker;
+                let late = adapter1.for_origin("late-duplicate");
+                *late.fault.write() = None;
+                let _ = late.commit_migration(m.clone()).await;
+                *late.fault.write() = Some(plan.clone());
+                rep.count("stale_commit_replays", 1);
+            }
+        }
         let crash1 = rng.chance(1, 4);
         let crash2 = rng.chance(1, 4);
         if two {
